@@ -1875,9 +1875,14 @@ where
             slice = self.read.slice_unchecked(start, self.read.index());
             let lv = LazyValue::new(slice.into(), status.into());
             for p in &node.order {
-                out[*p] = Some(lv.clone());
+                // with duplicate keys the node is visited again: the first member wins and every
+                // path is counted once, otherwise `remain` reaches zero (or underflows) while an
+                // enclosing target is still being scanned
+                if out[*p].is_none() {
+                    out[*p] = Some(lv.clone());
+                    *remain -= 1;
+                }
             }
-            *remain -= node.order.len();
         }
         Ok(())
     }
